@@ -504,8 +504,10 @@ func CheckC12(r *Report) {
 		bg2[i] = int8(spec.V2.NDIndex(i))
 	}
 	monoSweep(r, I20, []int{0, 1, 2, 3, 4, 5, 6, 7, 8}, bg2, []int{0, 1}, v2rank)
+	// across the representation boundary: Modified metric X (= base value) -> a defined more / less severe value
+	modifiedMono(r)
 	r.Evaluations.Store(r.Transitions.Load())
-	r.Bound = "complete neighbourhood graph on effective classes: v4 all metrics; v3.1 all 14 scoring metrics x 3 scores; v3.0 and v2 base+temporal metrics x 2 scores (v3.0 EnvironmentalScore excluded by the property); Modified representations are tied to these by C10"
+	r.Bound = "complete neighbourhood graph on effective classes: v4 all metrics; v3.1 all 14 scoring metrics x 3 scores; v3.0 and v2 base+temporal metrics x 2 scores (v3.0 EnvironmentalScore excluded by the property); plus the X -> defined-value steps of every Modified metric from every all-X object (v3.1: 2,592 base x 64 CR/IR/AR; v4.0: 104,976 base x 3 E); deeper Modified representations are tied to these by C10"
 	r.Sample(map[string]any{"pair": []string{"CVSS:4.0/AV:A/AC:L/AT:N/PR:N/UI:N/VC:H/VI:H/VA:H/SC:N/SI:N/SA:N", "CVSS:4.0/AV:N/AC:L/AT:N/PR:N/UI:N/VC:H/VI:H/VA:H/SC:N/SI:N/SA:N"}, "relation": "second >= first"})
 	r.Assumptions = []string{"severity orders taken from the specification documents (S: Changed above Unchanged; X ranks with its default; equal-rank values are not compared)", "representation independence (C10) carries the result to objects with Modified metrics"}
 }
